@@ -52,7 +52,7 @@ class C18(Prop):
         ol = [o for o in ops if o[0] not in ("init", "dumpfs", "counters")]
         fss = [r for r in results if r[0] == "fs"]
         if not (len(raws) == len(obs) == len(ol)):
-            return []
+            return self.skip("guard")
         fails = []
         main = hx(b"/S/def/zz_verif_trace_test.snap")
         fsi = 0
